@@ -606,6 +606,8 @@ def gen_cases(tier, rng):
         pending.clear()
 
     timed = list(TIMEOUT)
+    pick2 = rng.choice([S for S in timed if TIMEOUT[S] == T2])
+    pick12 = rng.choice([S for S in timed if TIMEOUT[S] == T12])
     all_states = [s for s in STATES if s not in ("SS.Disabled.Error", "Compliance")]
     if tier == "quick":
         full, some, env_n, noise_n = ["2k"], ["10k", "250k", "1M"], 10, 3
@@ -650,22 +652,24 @@ def gen_cases(tier, rng):
             if TIMEOUT[S] == T360 and f in ("250k", "1M") and tier != "thorough":
                 continue
             offs = (-1, 0, 1) if tier == "thorough" else (rng.choice([-1, 0, 1]),)
+            if tier == "quick" and f == "1M" and S not in (pick2, pick12):
+                continue      # quick keeps two probes at 1 MHz (a 2 ms and a 12 ms state, rotating with the seed)
             for off in offs:
                 script(f, loosen=rng.below(2), alone=True, state=S,
                        kind=rng.choice(["timeout", "timeout", "timeout-reset"]), off=off)
         script(f, state="U0", kind="reach")
         script(f, state="Polling.Idle", kind="reset+exit", n=2)
     flush(4)
-    if tier == "quick":
-        # one 360 ms probe at 250 kHz keeps the long time-out exercised at a "documented" frequency
-        script("250k", alone=True, state="Polling.LFPS", kind="timeout", off=rng.choice([-1, 0, 1]))
     # --- reactive environment
-    for k in range(env_n):
-        for f in (["1k", "2k", "10k", "25k"] if tier != "quick" else ["1k", "2k", "10k"]):
-            add(f, "env", loosen=rng.below(2), compliance=1 if rng.chance(20) else 0)
-    for f in (["250k"] if tier == "quick" else ["250k", "1M"]):
-        for k in range(2 if tier == "quick" else 6):
-            add(f, "env", loosen=rng.below(2))
+    if tier == "quick":
+        env_plan = [("1k", 6), ("2k", 6), ("10k", 4)]
+    elif tier == "widen":
+        env_plan = [("1k", env_n), ("2k", env_n), ("10k", env_n), ("25k", env_n), ("250k", 6), ("1M", 6)]
+    else:
+        env_plan = [("1k", env_n), ("2k", env_n), ("10k", env_n), ("25k", env_n), ("250k", 6), ("1M", 6)]
+    for f, cnt_ in env_plan:
+        for k in range(cnt_):
+            add(f, "env", loosen=rng.below(2), compliance=1 if (rng.chance(20) and f not in ("250k", "1M")) else 0)
     for k in range(noise_n):
         add(rng.choice(["1k", "2k", "10k"]), "noise", loosen=rng.below(2), compliance=rng.below(2),
             density=rng.choice([2, 10, 30, 50]))
